@@ -146,6 +146,14 @@ NATIVE_START_SITES = {
 def render(cell):
     shape, pend = cell["shape"], cell["pend"]
     g = "if(n >= %d) return 0;" % cell["depth"] if cell["stratum"] == "scale" else ""
+    # at every level, a built-in with a deep host-stack excursion of its own inside try/catch: when
+    # the host stack runs out inside it, the script must not get a catchable error and carry on
+    g += {"none": "",
+          "regexp": " try { new RegExp('((a|b)*c(d|e(f|g(h)*)+)?)+x'); } catch (e9) { p('c'); return 0; }",
+          "json_parse": " try { JSON.parse('[[[[[[[[[[[[1]]]]]]]]]]]]'); } catch (e9) { p('c'); return 0; }",
+          "json_stringify": " try { JSON.stringify({a:{b:{c:{d:{e:{f:[1,[2,[3,[4]]]]}}}}}}); } catch (e9) { p('c'); return 0; }",
+          "regex_match": " try { 'aaaab'.match('(a|b)+b'); /(x+)+y/.test('xxxxx'); } catch (e9) { p('c'); return 0; }",
+          }[cell.get("probe", "none")]
     decl, start = SHAPES[shape](pend, g)
     decl = decl.replace("var d=0; ", "")
     start = TRY_FORMS[cell.get("try", "none")] % start
@@ -189,6 +197,7 @@ def gen_case(seed, i, tier="quick"):
         stratum = "A"
     cell = {"stratum": stratum, "shape": shape, "pend": pend, "try": tr,
             "site": rng.choice(("top", "top", "top", "eval", "eval2", "newfn", "function") + tuple(sorted(NATIVE_START_SITES)))}
+    cell["probe"] = rng.choice(("none", "none", "none", "regexp", "json_parse", "json_stringify", "regex_match"))
     if shape in ("closure", "arrow", "method", "getter", "setter", "valueOf", "newfn") and cell["site"] == "newfn":
         cell["site"] = "eval"     # these shapes declare with var/object literals that need program scope
     if stratum == "scale" and cell["site"] in NATIVE_START_SITES and cell.get("try") == "outer_try_loop":
@@ -206,6 +215,8 @@ def gen_case(seed, i, tier="quick"):
     else:
         hi = 2_000_000 if tier == "quick" else 20_000_000
         case["M"] = loguniform(rng, 2000, hi)
+        if cell.get("probe", "none") != "none":
+            case["M"] = min(case["M"], 200_000)     # a probe costs ~3k work units per level
         if rng.random() < 0.15:
             # a deadline landing during the growth
             case["T_work"] = loguniform(rng, 300, 60000)
@@ -233,7 +244,7 @@ def execute(case):
             W.log("host_call", "p", a[0] if a else None)
 
     ctx.set("p", p)
-    cap = int(PROP_C * M + PROP_C0) * 5 if case["cell"]["stratum"] == "A" else 50_000_000
+    cap = _prop_bound(case) * 5 if case["cell"]["stratum"] == "A" else 50_000_000
     tm = case.get("tracemalloc")
     peak = None
     if tm:
@@ -256,6 +267,12 @@ def execute(case):
     return res
 
 
+def _prop_bound(case):
+    """work <= c*M + c0; a built-in probe at every level multiplies the cost of a level"""
+    k = 40 if case["cell"].get("probe", "none") != "none" else 1
+    return int(k * (PROP_C * case["M"] + PROP_C0))
+
+
 def judge(case, r):
     v = []
     cell = case["cell"]
@@ -271,19 +288,19 @@ def judge(case, r):
         pass
     elif r["outcome"] == "cap":
         v.append({"clause": "C02.A.prop", "detail": "not stopped after %d work units with memory_limit=%d (bound %d)" % (
-            r["work"], M, PROP_C * M + PROP_C0)})
+            r["work"], M, _prop_bound(case))})
         if r["n_probes"]:
             v.append({"clause": "C02.A.catch", "detail": "script catch/finally ran %d times" % r["n_probes"]})
         return v
     else:
         v.append({"clause": "C02.A.class", "detail": "runaway recursion under memory_limit=%d ended in %s %s: %s" % (
             M, r["outcome"], r["cls"], r["msg"] if r["outcome"] != "value" else json.dumps(r["value"]))})
-    if r["work"] > PROP_C * M + PROP_C0:
+    if r["work"] > _prop_bound(case):
         v.append({"clause": "C02.A.prop", "detail": "%d work units to the stop with memory_limit=%d (bound %d)" % (
-            r["work"], M, PROP_C * M + PROP_C0)})
+            r["work"], M, _prop_bound(case))})
     if r["real_peak"] is not None and r["real_peak"] > REAL_MEM_FACTOR * M + REAL_MEM_SLACK:
         v.append({"clause": "C02.A.prop", "detail": "host allocated %d bytes before the stop with memory_limit=%d" % (r["real_peak"], M)})
-    if r["n_probes"] and cell["try"] in ("outer_try", "outer_try_loop"):
+    if r["n_probes"] and (cell["try"] in ("outer_try", "outer_try_loop") or cell.get("probe", "none") != "none"):
         v.append({"clause": "C02.A.catch", "detail": "script catch handler ran %d times after the stop" % r["n_probes"]})
     return v
 
@@ -301,6 +318,8 @@ def features(case, res=None):
         f.append("try:" + cell["try"])
     if cell.get("site", "top") != "top":
         f.append("site:" + cell["site"])
+    if cell.get("probe", "none") != "none":
+        f.append("probe:" + cell["probe"])
     if case.get("T_work"):
         f.append("fault:deadline")
     if cell["stratum"] == "A":
@@ -334,6 +353,8 @@ def shrink_candidates(case):
         yield mk(pend="stmt")
     if cell.get("site", "top") != "top":
         yield mk(site="top")
+    if cell.get("probe", "none") != "none":
+        yield mk(probe="none")
     if cell["shape"] != "self" and cell.get("site", "top") in ("top", "eval", "eval2"):
         yield mk(shape="self")
     if cell["stratum"] == "scale":
